@@ -17,7 +17,9 @@ using namespace datasketches;
 // moves the object through its modes; merge / merge_move where the family has them; obs(x): public observation; reset where offered.
 template<class T> struct ItemGen { static T make(int i) { return Gen<T>::make(i); } };
 
-struct TrBase { static const bool has_merge = true; static const bool has_reset = false; template<class S> static void reset(S&) {} static const bool obs_mutates = false; };
+// is_view(x): the object does not own its state but is a view of caller memory (wrapped Bloom filters). Copying a view yields
+// another view of the same memory by design, so the independence clause is applied to objects that own their state
+struct TrBase { template<class S> static bool is_view(const S&) { return false; } static const bool has_merge = true; static const bool has_reset = false; template<class S> static void reset(S&) {} static const bool obs_mutates = false; };
 
 template<class T, int KIND> struct QuantTr : TrBase {
   typedef typename QuantTypes<T, KIND>::Sk Sk; typedef typename LessOf<T>::type C;
@@ -241,6 +243,31 @@ struct BloomTr : TrBase {
   static std::string obs(Sk& s) { return BloomObj::obs_of(s); }
   static void ser(Sk& s) { s.serialize(); }
 };
+// Bloom filters of MIXED ownership: the filter of slot 0 owns its bit array, the others live in caller memory (one static buffer per
+// slot, re-initialised by every construction), so that copies, moves and assignments cross the two kinds of ownership
+struct BloomMixedTr : TrBase {
+  typedef Bloom Sk; static std::string nm() { return "bloom/mixed-ownership"; }
+  static uint8_t* buffer(int arena) { static uint8_t buf[4][256]; return buf[arena & 3]; }
+  static bool is_view(const Sk& s) { return !s.is_memory_owned(); }
+  static Sk* make(int arena) {
+    if (arena == 1) return new Sk(Bloom::builder::create_by_size(130, 3, 9001, TrackAlloc<uint8_t>(arena)));
+    return new Sk(Bloom::builder::initialize_by_size(buffer(arena), 256, 130, 3, 9001, TrackAlloc<uint8_t>(arena)));
+  }
+  static void a(Sk& s, int n) { s.update((uint64_t)n); } static void b(Sk& s, int n) { for (int i = 0; i < 12; ++i) s.update((uint64_t)(100 * n + i)); s.get_bits_used(); }
+  static void merge(Sk& s, const Sk& o) { s.union_with(o); } static void merge_move(Sk& s, Sk&& o) { s.intersect(o); }
+  static const bool has_reset = true; static void reset(Sk& s) { s.reset(); }
+  static std::string obs(Sk& s) { return BloomObj::obs_of(s); }
+  static void ser(Sk& s) { s.serialize(); }
+};
+// frequent items at a map size whose purge samples fewer counters than are active (lg_max_map_size 11: 1537 active, 1024 sampled)
+struct FiBigTr : TrBase {
+  typedef FiObj<Item>::Sk Sk; static std::string nm() { return "frequent_items<item>/lgmax11"; }
+  static Sk* make(int arena) { return new Sk(11, 3, ItemEqual(), TrackAlloc<Item>(arena)); }
+  static void a(Sk& s, int n) { s.update(Item(n), 2); } static void b(Sk& s, int n) { for (int i = 0; i < 1700; ++i) s.update(Item(10000 * n + i), 1 + i % 3); }
+  static void merge(Sk& s, const Sk& o) { s.merge(o); } static void merge_move(Sk& s, Sk&& o) { s.merge(std::move(o)); }
+  static std::string obs(Sk& s) { return "n=" + str(s.get_num_active_items()) + "|w=" + str(s.get_total_weight()) + "|err=" + str(s.get_maximum_error()) + "|e5=" + str(s.get_estimate(Item(5))) + "|e10005=" + str(s.get_estimate(Item(10005))); }
+  static void ser(Sk& s) { s.serialize(0, ItemSerde()); }
+};
 struct DensTr : TrBase {
   typedef DensObj::Sk Sk; static std::string nm() { return "density"; }
   static Sk* make(int arena) { return new Sk(3, 2, GaussAny(), TrackAlloc<double>(arena)); }
@@ -276,7 +303,7 @@ struct LifeSys {
   std::vector<std::string> snapshot(State& st) { std::vector<std::string> v(NS); for (int i = 0; i < NS; ++i) if (st.s[i].st == LIVE) v[i] = Tr::obs(*st.s[i].p); return v; }
   void unchanged_except(State& st, const std::vector<std::string>& before, int x, int y, Ctx* c, const char* what) {
     if (!c) return;
-    for (int i = 0; i < NS; ++i) if (i != x && i != y && st.s[i].st == LIVE) c->ok(std::string("independent-of-") + what, Tr::obs(*st.s[i].p) == before[i], "slot " + str(i) + " changed by an operation on other slots");
+    for (int i = 0; i < NS; ++i) if (i != x && i != y && st.s[i].st == LIVE && !Tr::is_view(*st.s[i].p)) c->ok(std::string("independent-of-") + what, Tr::obs(*st.s[i].p) == before[i], "slot " + str(i) + " changed by an operation on other slots");
   }
   bool apply(State& st, size_t opi, Ctx* c) {
     const Op& o = ops[opi]; Slot& d = st.s[o.i]; Slot& src = st.s[o.j];
@@ -371,6 +398,8 @@ int main(int argc, char** argv) {
   add_family<EbTr>(tasks, cfg, 6, 8);
   add_family<TdTr>(tasks, cfg, 6, 8);
   add_family<BloomTr>(tasks, cfg, 6, 8);
+  add_family<BloomMixedTr>(tasks, cfg, 6, 8);
+  add_family<FiBigTr>(tasks, cfg, 4, 5);
   add_family<DensTr>(tasks, cfg, 6, 8);
   return run_tasks(cfg, "C19", tasks);
 }
